@@ -1,8 +1,9 @@
 \* behaviour generator: sequential behaviours (arrivals between polls) of the required loop
 SPECIFICATION Spec
-INVARIANT OutIsPrefixOfExpected QuiescentMeansDrained SleepingHasWaker DrainedMeansAllDelivered WakerOnlyWhenEmpty SlotsBounded ClosedLosesOnlyLastPoll Emit
+INVARIANT OutIsPrefixOfExpected QuiescentMeansDrained SleepingHasWaker DrainedMeansAllDelivered BoundariesKept WakerOnlyWhenEmpty SlotsBounded ClosedLosesOnlyLastPoll Emit
 CHECK_DEADLOCK FALSE
 CONSTANTS
+  ExactTail = TRUE
   Fixed = TRUE
   ArriveDuringPoll = FALSE
   Record = TRUE
